@@ -45,12 +45,12 @@ def reference(seq):
         elif k == "unknown":
             o.append("closed"); alive = False
         elif k == "config":
-            if state != 0 or ev[1] == "X":
+            if state != 0 or ev[1] in ("X", "J"):
                 o.append("closed"); alive = False
             else:
                 state, cfg = 1, ev[1]; o.append("ok:config")
         elif k == "upload":
-            if state != 1:
+            if state != 1 or ev[1] == "J":
                 o.append("closed"); alive = False
             else:
                 state, edb = 2, ev[1]; o.append("ok:upload_edb")
@@ -174,6 +174,32 @@ def correspond(ctx):
                     res.violations.append({"signature": "trace differs from the 3-state reference machine",
                                            "what": f"events [{c}] + probe: observed {g} expected {ref}",
                                            "input": {"events": [list(e) for e in s]}})
+        # beyond the model's alphabet, against the reference machine only: a configuration the handler accepts, starts to
+        # store and then cannot store (JSON cannot encode a bytes value).  It is a refused request: nothing may change.
+        rng = ctx.rng
+        seqs2 = []
+        for _ in range(ctx.pick(40, 400)):
+            bad = [("config", "J"), ("upload", "J")]
+            s2 = [rng.choice(ALPHABET) for _ in range(rng.randint(0, 3))] + [rng.choice(bad)] + \
+                 [rng.choice(ALPHABET + bad) for _ in range(rng.randint(1, 5))]
+            seqs2.append(s2)
+        waits2 = [[list(o) for o in reference(s + PROBE)] for s in seqs2]
+        fe.teardown(); fe.setup(cleanup_delay=0.0)
+        fx2 = srvproto.Fixture()
+        got2 = asyncio.run(run_impl(fx2, seqs2, waits2))
+        for s2, g in zip(seqs2, got2):
+            g.pop()
+            res.evaluations += 1
+            res.count("half-stored configuration sequences")
+            if any(x == ["skipped"] for x in g):
+                continue
+            ref = reference(s2 + PROBE)
+            if [list(x) for x in g] != ref:
+                if not any(v["signature"] == "trace differs from the 3-state reference machine" for v in res.violations):
+                    c2 = " ; ".join(" ".join(map(str, ev)) for ev in s2)
+                    res.violations.append({"signature": "trace differs from the 3-state reference machine",
+                                           "what": f"events [{c2}] + probe (config J / upload J = a configuration / an index the handler starts to store and cannot): observed {g} expected {ref}",
+                                           "input": {"events": [list(e) for e in s2]}})
     finally:
         fe.teardown()
     return res
